@@ -61,10 +61,11 @@ CLAIMED = {
  'C08': {
   'text': 'Partial. Verus proves on the real bodies, for all lists, strings and positions: sublist (2 and 3 arguments), substring (characters, 1-based, negative from the end), insert before, remove, reverse, '
           'count, index of (sound and complete), list contains, append, all and not return exactly the specified value on their domain and null outside it, with no overflow for extreme positions/lengths; '
+          'concatenate, union, distinct values (first occurrences in order, relative to value equality), flatten (nested lists replaced by their items), sum and mean (left-to-right folds), min and max of numbers (the first of equal items stays) likewise; '
           'and for 34 built-ins that the positional wrapper handles exactly the legal arities and that the named wrapper passes the standard\'s parameter names in the standard\'s order to the same core '
           'function (named invocation = positional invocation; contracts generated from a table of DMN signatures). BOUNDED: all / any over every list of length 0..4 from {true, false, null, 1, "a"} in list, named and variadic form. Known finding replayed each run: any().',
   'design_ref': 'DESIGN.md section 5 (C08)',
-  'note': 'Trusted: Verus/Z3, vstd; FeelNumber predicates/conversions as stated stubs; String char iteration stubs; core functions uninterpreted in the dispatch unit. Not decided: regex/conversion/aggregate functions, sort, flatten/union/distinct values.',
+  'note': 'Trusted: Verus/Z3, vstd; FeelNumber predicates/conversions as stated stubs; String char iteration stubs; core functions uninterpreted in the dispatch unit. Not decided: regex / conversion functions, sort, median / mode / stddev / product, min / max of strings beyond "a string or null".',
  },
  'C05': {
   'text': 'Partial. The conjunction of the automatic Verus obligations (arithmetic overflow/underflow, division by zero, index and slice bounds, Option::unwrap, and termination where a decreases clause is given) '
